@@ -193,6 +193,12 @@ AB4_22 = bytes([0x01, 0x16]) + b"Caf\xc3\xa9" + bytes(11) + bytes([0x04, 0x04, 0
 AB5 = bytes([0x00, 0x18]) + NAME16 + bytes([0x00, 0x04, 0x17, 0x1D, 0x10, 0x1F, 0x12, 0x1F])        # 26 bytes
 
 
+# valid UTF-8 texts a permissive or "helpful" text decoder treats specially: byte-order mark first / inside, zero-width and
+# combining characters, 4-byte characters, the edges of the surrogate gap, non-characters, control characters, leading / trailing blanks
+TEXTS = [t.encode() for t in ("\ufeffKids", "K\ufeffid", "\ufeff", "\u200bZone", "e\u0301t\u00e9", "\U0001F3E0", "\ud7ff\ue000", "\ufffd\ufffe",
+                              " Lead", "Trail ", "\tTab", "a\nb", "\x7f", "\x01", "\u0085x", "\u00a0x", "\u2028x")]
+
+
 def status_cases(real, rng):
     """yield `data` (what follows the frame header: the oracle's hex)"""
     key = (real.gen, real.kind)
@@ -280,7 +286,14 @@ def status_cases(real, rng):
             yield pre + (rec_bases[0] + rec_bases[1] + rec_bases[2] + bytes(9))[:n]
         yield pre + rec_bases[0] + bytes([0]) + b"Other\0\0\0" + rec_bases[1]      # a group number twice
         yield pre + b"".join(bytes([i]) + ("Zone%d" % i).encode().ljust(8, b"\0") for i in range(16))
+        for t in TEXTS:
+            if len(t) <= 8:
+                yield pre + bytes([3]) + t.ljust(8, b"\0")
+                yield pre + rec_bases[0] + bytes([3]) + t.ljust(8, b"\0")
     elif key == (4, "FF11"):
+        for t in TEXTS:
+            yield pre + AB4[:2] + t.ljust(16, b"\0") + AB4[18:]
+            yield pre + AB4_22[:2] + t.ljust(16, b"\0") + AB4_22[18:]
         for r in sweep([AB4, AB4_22, bytes(26), bytes([0xFF] * 26), bytes([0, 22]) + bytes([0xFF] * 22)]):
             yield pre + r
         for r in sweep([AB4]):
@@ -319,6 +332,8 @@ def status_cases(real, rng):
         for n in range(0, 56):
             yield pre + (AB5 + AB5)[:n]
         yield pre + b"".join(bytes([i]) + AB5[1:] for i in range(8))
+        for t in TEXTS:
+            yield pre + AB5[:2] + t.ljust(16, b"\0") + AB5[18:]
     elif key == (5, "FF13"):
         rec_bases = [bytes([0, 6]) + b"Living", bytes([1, 7]) + b"Kitchen", bytes([2, 5]) + "Café".encode(),
                      bytes([3, 0]), bytes([0xFF, 3, 0xFF, 0xFF, 0xFF])]
@@ -335,7 +350,12 @@ def status_cases(real, rng):
         yield pre + rec_bases[0] + bytes([0, 5]) + b"Other" + rec_bases[1]          # a zone number twice
         yield pre + b"".join(bytes([i, 5]) + ("Zone%x" % i).encode() for i in range(16))
         yield pre + bytes([4, 255]) + b"x" * 255
+        for t in TEXTS:
+            yield pre + bytes([5, len(t)]) + t
+            yield pre + rec_bases[0] + bytes([5, len(t)]) + t + rec_bases[1]
     elif kind == "FF10":
+        for t in TEXTS:
+            yield pre + bytes([1, len(t)]) + t
         msgs = [bytes([0, 8]) + b"ER: FFFE", bytes([1, 0]), bytes([3, 5]) + "Café".encode(), bytes([0xFF, 2, 0xFF, 0xFF])]
         for r in sweep(msgs):
             yield pre + r
